@@ -355,6 +355,10 @@ func runIO(ops []rdOp) *adRun {
 				run.fail("iowriter-result", fmt.Sprintf("%s: Write(%d) = %d, %v", desc, o.N, n, err))
 			}
 			model = append(model, p...)
+			// io.Writer: "Write must not retain p" - the caller reuses its slice at once
+			for i := range p {
+				p[i] = 0xEE
+			}
 		case "Read":
 			p := make([]byte, o.N)
 			n, err := ior.Read(p)
